@@ -888,6 +888,12 @@ class Interp:
             ga, k = mro_lookup(t, "__getattribute__")
             if k is not object and isinstance(ga, types.FunctionType) and loader.is_repo_function(ga):
                 return self.call(ga, [obj, name], {})
+            if k is not object and not isinstance(ga, types.FunctionType) and hasattr(ga, "__wrapped__") and not name.startswith("__"):
+                # a wrapped __getattribute__ (functools.lru_cache on Config): instances are concrete,
+                # so the real lookup is executed natively; methods still come from the AST
+                raw, _ = mro_lookup(t, name)
+                if raw is _MISSING or not isinstance(raw, (types.FunctionType, property, staticmethod, classmethod)) and type(raw).__name__ != "cached_property":
+                    return getattr(obj, name)
             return self.generic_getattr(obj, name)
         return getattr(obj, name)
 
